@@ -320,6 +320,76 @@ func concRoundRobin(run *hx.Run, class string, n, k int, host string, backends [
 	run.Case(class, fmt.Sprintf("conc-rr %d %d %s %s", n, k, hx.HexS(host), hexList(backends)), out)
 }
 
+// Counter-drift probe.  One connection is held open per backend.  In every round, for every backend at the same
+// time, one goroutine closes the held connection (the count drops to zero and the counter is deleted) while
+// another opens the next one.  After each round (a barrier: nothing in flight, exactly one connection open per
+// backend) the per-backend least-connections counters and ActiveConnections() are read; the harness reports the
+// minimum and maximum seen per backend over all barriers, and the table after everything was closed.
+// No judgement is made here: the driver's spec (count == number of open connections) decides.
+func concCounterDrift(run *hx.Run, class string, rounds int, host string, backends []string) {
+	out := hx.Guard(120*time.Second, func() string {
+		sm := lite.NewStrategyManager()
+		nb := len(backends)
+		held := make([]func(), nb)
+		for i, b := range backends {
+			held[i] = sm.TrackConnection(host, b)
+		}
+		minC, maxC := make([]uint32, nb), make([]uint32, nb)
+		for i := range minC {
+			minC[i] = ^uint32(0)
+		}
+		minA, maxA := ^uint32(0), uint32(0)
+		read := func(final bool) []uint32 {
+			t := make([]uint32, nb)
+			for i, b := range backends {
+				t[i] = sm.GetOrCreateCounter(b).Load()
+			}
+			return t
+		}
+		for r := 0; r < rounds; r++ {
+			var wg sync.WaitGroup
+			start := make(chan struct{})
+			next := make([]func(), nb)
+			for i := range backends {
+				wg.Add(2)
+				go func(i int) { defer wg.Done(); <-start; held[i]() }(i)
+				go func(i int) { defer wg.Done(); <-start; next[i] = sm.TrackConnection(host, backends[i]) }(i)
+			}
+			close(start)
+			wg.Wait()
+			held = next
+			for i, c := range read(false) {
+				if c < minC[i] {
+					minC[i] = c
+				}
+				if c > maxC[i] {
+					maxC[i] = c
+				}
+			}
+			a := sm.ActiveConnections()
+			if a < minA {
+				minA = a
+			}
+			if a > maxA {
+				maxA = a
+			}
+		}
+		for _, f := range held {
+			f()
+		}
+		fin := read(true)
+		parts := make([]string, nb)
+		fparts := make([]string, nb)
+		for i, b := range backends {
+			parts[i] = fmt.Sprintf("%s:%d:%d", hx.HexS(b), minC[i], maxC[i])
+			fparts[i] = fmt.Sprintf("%s:%d", hx.HexS(b), fin[i])
+		}
+		return fmt.Sprintf("barriers=%d open=1 counts=%s active=%d:%d final=%s factive=%d", rounds,
+			strings.Join(parts, ","), minA, maxA, strings.Join(fparts, ","), sm.ActiveConnections())
+	})
+	run.Case(class, fmt.Sprintf("conc-ctr %d %s %s", rounds, hx.HexS(host), hexList(backends)), out)
+}
+
 func concRandom(run *hx.Run, class string, n, k int, backends []string) {
 	out := hx.Guard(60*time.Second, func() string {
 		sm := lite.NewStrategyManager()
@@ -442,6 +512,7 @@ func main() {
 	concOpenClose(run, "fixed-conc", 16, "Host", []string{"a", "b:25565", "B"})
 	concRoundRobin(run, "fixed-conc", 8, 30, "rr", []string{"a", "b", "c"})
 	concRandom(run, "fixed-conc", 8, 200, []string{"a", "b", "c"})
+	concCounterDrift(run, "fixed-conc", run.Scale(6000, 30000), "x", []string{"busy.example.test:25565", "b", "c:1"})
 
 	// ---- generated sequential histories ----
 	nHist := run.Scale(700, 6000)
@@ -502,6 +573,8 @@ func main() {
 		concOpenClose(run, "conc-open", 2+r.Intn(run.Scale(24, 64)), hx.Pick(r, []string{"x", "Play"}), bs)
 		concRoundRobin(run, "conc-rr", 2+r.Intn(8), 1+r.Intn(run.Scale(40, 300)), "rr"+strconv.Itoa(i), bs)
 		concRandom(run, "conc-rand", 2+r.Intn(8), 50+r.Intn(200), bs)
+		distinct := []string{"a:25565", "B", "10.0.0.1:1", "[::1]:25566"}[:1+r.Intn(4)]
+		concCounterDrift(run, "conc-ctr", run.Scale(1500, 4000), hx.Pick(r, []string{"x", "Play"}), distinct)
 	}
 
 	run.Finish()
